@@ -330,7 +330,8 @@ def run(ctx):
                "the wait loop ignores a full queue: a worker blocked in its own send into that queue (worker 0 re-queues compaction requests) never gets a close message and the drop of the last handle never returns")
         snd = snd + nonblock
         for name, bs in clears.items():
-            okc = bool(bs) and all(A.dominates(dd, b, dd.return_blocks()[0]) for b in bs[:1])
+            # every path to the end of drop passes one of the clear() calls (they may sit in the arms of a match)
+            okc = bool(bs) and not any(rb in A.reach(dd, [0], avoid=list(bs)) for rb in dd.return_blocks())
             ctx.ob("R-C17.4", dd, "breaks-cycle-%s" % name, okc, "%s.clear() runs on every path of drop" % name if okc else "%s is not cleared on every path: an Arc cycle keeps the lock guard alive after the last handle is dropped" % name)
     wc = ctx.fn("worker_pool::WorkerPool::start::{closure#0}::{closure#0}", "R-C17.4")
     if wc:
